@@ -57,6 +57,30 @@ def identity_checks(out, bc):
     return bad
 
 
+def _registry_check(bc, held):
+    """own frame: no loop variable may keep an object alive after the check"""
+    bad = []
+    for cls in (bc.DomainS, bc.StrandS, bc.ComplexS, bc.MacrostateS, bc.ReactionS):
+        for n, o in list(cls._instanceNames.items()):
+            if o.name != n:
+                bad.append('%s: name entry %r -> %r' % (cls.__name__, n, o.name))
+    if held is not None:
+        for key, cls in (('domains', bc.DomainS), ('strands', bc.StrandS), ('complexes', bc.ComplexS), ('macrostates', bc.MacrostateS)):
+            for n, o in held[key].items():
+                if cls._instanceNames.get(n) is not o:
+                    bad.append('held %s %r is no longer the registered singleton' % (cls.__name__, n))
+    return bad
+
+
+def _release_refs(dicts):
+    refs = []
+    for d in dicts:
+        for key in ('domains', 'strands', 'complexes', 'macrostates'):
+            refs += [weakref.ref(o) for o in d[key].values()]
+        refs += [weakref.ref(o) for o in d['det_reactions']] + [weakref.ref(o) for o in d['con_reactions']]
+    return refs
+
+
 def read_job(job):
     """job = dict(text=…, mode='full'|'outcome', ignore=None|list, lines=[single statements], pre=None|text)"""
     objectio, bc = _fresh()
@@ -101,25 +125,11 @@ def read_job(job):
                     del o
                 res['line_vs_doc'] = same
         # registry invariants after the (possibly failed) read: previously held objects stay valid singletons
-        bad = []
-        for cls in (bc.DomainS, bc.StrandS, bc.ComplexS, bc.MacrostateS, bc.ReactionS):
-            for n, o in list(cls._instanceNames.items()):
-                if o.name != n:
-                    bad.append('%s: name entry %r -> %r' % (cls.__name__, n, o.name))
-        if held is not None:
-            for key, cls in (('domains', bc.DomainS), ('strands', bc.StrandS), ('complexes', bc.ComplexS), ('macrostates', bc.MacrostateS)):
-                for n, o in held[key].items():
-                    if cls._instanceNames.get(n) is not o:
-                        bad.append('held %s %r is no longer the registered singleton' % (cls.__name__, n))
-        res['registry'] = bad
+        res['registry'] = _registry_check(bc, held)
         # lifetime: dropping the dictionaries releases everything after at most one gc pass
         if job.get('check_release'):
-            refs = []
-            for d in ([out] if out else []) + ([held] if held else []):
-                for key in ('domains', 'strands', 'complexes', 'macrostates'):
-                    refs += [weakref.ref(o) for o in d[key].values()]
-                refs += [weakref.ref(o) for o in d['det_reactions']] + [weakref.ref(o) for o in d['con_reactions']]
-            out = held = d = None
+            refs = _release_refs(([out] if out else []) + ([held] if held else []))
+            out = held = None
             gc.collect()
             res['leaked'] = sum(1 for r in refs if r() is not None)
             res['names_left'] = sum(len(c._instanceNames) for c in (bc.DomainS, bc.StrandS, bc.ComplexS, bc.MacrostateS, bc.ReactionS))
